@@ -31,25 +31,32 @@ def gen_global_program(rng):
         shape = [dims[d][1] for d in ds]
         isrec = dims[ds[0]][1] == 0
         if isrec:
-            shape[0] = max(nrec, 1) + rng.choice([0, 1, 2])
+            shape[0] = max(nrec, 1) + rng.choice([0, 1, 2, 4, 7])
         st = [rng.randint(0, L - 1) for L in shape]
         ct = [rng.randint(1, L - s) for s, L in zip(st, shape)]
+        sd = [1] * len(shape)
+        if k < 0.45 and rng.random() < 0.4:
+            # strided selection (also along the record dimension)
+            for d, L in enumerate(shape):
+                if rng.random() < 0.6 and L - st[d] >= 3:
+                    sd[d] = rng.choice([2, 3])
+                    ct[d] = rng.randint(1, (L - 1 - st[d]) // sd[d] + 1)
         if k < 0.45:
             mt = rng.choice([XT2MEM[xt], "double", "int", "longlong", "short"])
             lo, hi = safe_range(mt, xt)
             lo, hi = max(lo, -30000), min(hi, 30000)
             n = int(np.prod(ct))
             vals = [rng.randint(lo, hi) for _ in range(n)]
-            ops.append(("put", vid, st, ct, mt, vals, rng.choice(["vara", "vars", "varm"]), rng.random() < 0.35))
+            ops.append(("put", vid, st, ct, mt, vals, rng.choice(["vara", "vars", "varm"]) if all(x == 1 for x in sd) else rng.choice(["vars", "varm"]), rng.random() < 0.35, sd))
             if isrec:
-                nrec = max(nrec, st[0] + ct[0])
+                nrec = max(nrec, st[0] + (ct[0] - 1) * sd[0] + 1)
         elif k < 0.8:
             if isrec and nrec == 0:
                 continue
             if isrec:
                 st[0] = min(st[0], nrec - 1)
                 ct[0] = min(ct[0], nrec - st[0])
-            ops.append(("get", vid, st, ct, rng.choice([XT2MEM[xt], "double"]), None, rng.choice(["vara", "vars"]), False))
+            ops.append(("get", vid, st, ct, rng.choice([XT2MEM[xt], "double"]), None, rng.choice(["vara", "vars"]), False, None))
         elif k < 0.9:
             ops.append(("redef", len(ops), rng.choice([10, 600, 5000])))
         else:
@@ -75,8 +82,8 @@ def gen_config(rng, maxp):
     for k, vals in CONFIG_SPACE.items():
         if rng.random() < 0.3:
             hints[k] = rng.choice(vals)
-    if nprocs > 1 and rng.random() < 0.35:
-        hints["nc_num_aggrs_per_node"] = rng.randint(1, nprocs)
+    if nprocs > 1 and rng.random() < 0.5:
+        hints["nc_num_aggrs_per_node"] = rng.randint(1, nprocs) if rng.random() < 0.2 else rng.randint(1, nprocs - 1)
     return {"nprocs": nprocs, "hints": hints, "safe": rng.random() < 0.25, "envhints": rng.random() < 0.25, "nonblocking": rng.random() < 0.4}
 
 
@@ -106,25 +113,27 @@ def render(prog, cfg, name, seed):
     pending = False
     for oi, op in enumerate(prog["ops"]):
         if op[0] == "put":
-            _, vid, st, ct, mt, vals, form, nb = op
+            _, vid, st, ct, mt, vals, form, nb, sd = op
             v = p.fm.vars[vid]
-            # split along dimension 0 among the ranks
-            pieces = p.split_even(ct[0], np_)
+            # split along one dimension (chosen per rendering) among the ranks
+            kd = rng.randrange(len(ct))
+            pieces = p.split_even(ct[kd], np_)
             vals_arr = np.array(vals, dtype=object).reshape(ct)
             use_nb = nb and cfg["nonblocking"]
             for r, (a, b) in enumerate(pieces):
-                sst = [st[0] + a] + st[1:]
-                cct = [b - a] + ct[1:]
+                sst, cct = list(st), list(ct)
+                sst[kd] = st[kd] + a * sd[kd]
+                cct[kd] = b - a
                 if b <= a:
                     sst, cct = [0] * len(st), [0] * len(ct)
-                sub = vals_arr[a:b].reshape(-1)
-                line = p.put_values(r, vid, sst, cct, mt, sub, form, nb=use_nb)
+                sub = np.take(vals_arr, list(range(a, b)), axis=kd).reshape(-1)
+                line = p.put_values(r, vid, sst, cct, mt, sub, form, nb=use_nb, sd=sd)
                 if r == 0:
                     errlines.append((oi, line))
             if use_nb:
                 p.complete("wait", True, {r: "all" for r in range(np_)})
         elif op[0] == "get":
-            _, vid, st, ct, mt, _, form, _ = op
+            _, vid, st, ct, mt, _, form, _, _ = op
             p.sync3()
             for r in range(np_):
                 line, _ = p.one_access("get", r, vid, st, ct, [1] * len(ct), True, form=form, mt=mt)
@@ -157,13 +166,14 @@ def _split_even(self, n, parts):
     return out
 
 
-def _put_values(self, rank, vid, st, ct, mt, vals, form, nb=False):
+def _put_values(self, rank, vid, st, ct, mt, vals, form, nb=False, sd=None):
     """put explicit values (python ints, canonical order)"""
+    sd = list(sd) if sd is not None else [1] * len(ct)
     v = self.fm.vars[vid]
     nelem = int(np.prod(ct))
     xv = np.array([int(x) for x in vals], dtype=object).astype(v.dt) if nelem else np.zeros(0, v.dt)
     mv = conv_x2m(xv, v.xtype, mt)
-    kw = self.access_args(form, st, ct, [1] * len(ct), None)
+    kw = self.access_args(form, st, ct, sd, None)
     kw.update(f=self.f, v=vid, form=form, mt=mt, data="hex:" + mv.tobytes().hex())
     if nelem > 0 and self.rng.random() < 0.45:
         # the same values through the flexible API and a derived buffer datatype with gaps, chosen per rendering: how the
@@ -186,7 +196,7 @@ def _put_values(self, rank, vid, st, ct, mt, vals, form, nb=False):
             buf[pos + k] = rb[:, k]
         td.emit(self.s, rank, self.tslot)
         kw.update(mt="flex", bufcount=bufcount, buftype=td.ref(), data="hex:" + buf.tobytes().hex())
-    idx = select(st, ct, [1] * len(ct))
+    idx = select(st, ct, sd)
     if nb:
         self.bslot = (self.bslot + 1) % 4000
         self.rslot = (self.rslot + 1) % 4000
@@ -214,7 +224,7 @@ class C10(Check):
             "mode, PNETCDF_HINTS vs MPI_Info, blocking vs nonblocking execution, typed vs flexible API with a derived buffer datatype.  Oracles: every rendering agrees with the data model; "
             "rank 0's read buffers and return codes are identical across configurations; the layout-independent logical dump of the final "
             "files is identical; variable offsets honour the alignment values ncmpi_inq_file_info reports. distinct = distinct configurations")
-    assumptions = ["global puts are split along the first dimension in contiguous blocks"]
+    assumptions = ["global puts are split among the ranks in contiguous blocks of one dimension, chosen per rendering"]
 
     def generate(self, tier, rng):
         nprog = int(os.environ.get("VERIF_N", 45)) if tier == "quick" else 600
